@@ -448,7 +448,7 @@ class SpyMetric:
 
     def __init__(self, name, kind):
         self.name = name
-        self.kind = kind  # "mean" | "count" | "const"
+        self.kind = kind  # "mean" | "count" | "npos" | "const"
         self.__name__ = name
 
     def __call__(self, y_true, y_pred, row_tag=None):
@@ -465,6 +465,8 @@ class SpyMetric:
             val = float(yp.mean()) if len(yp) else float("nan")
         elif self.kind == "count":
             val = len(rows)
+        elif self.kind == "npos":
+            val = int((yp > 0.5).sum())  # integer-valued and varying from resample to resample
         else:
             val = 0.625
         ctx.spy_log.append((self.name, rows, val))
